@@ -685,6 +685,13 @@ func init() {
 				if *big && rng.Intn(5) == 0 {
 					pl.P.Pool = 15 + rng.Int63n(120)
 				}
+				if *big && pl.Mode == 0 && rng.Intn(4) == 0 {
+					// a small pool (its rounds are listed) that keeps exploding: the text changes form once more than 100 dice were rolled
+					pl.P.Pool = 6 + rng.Int63n(9)
+					pl.P.Sides = pick(10, 10, 8, 6)
+					pl.P.Add = 2 + rng.Int63n(2)
+					pl.P.Thr = 1 + rng.Int63n(pl.P.Sides)
+				}
 			case 6:
 				pl.Fam = "dc"
 				pl.P.Pool = 1 + rng.Int63n(10)
